@@ -134,7 +134,10 @@ class History:
                         f = m.fac[key]
                         if not (f["async"] and not is_async):
                             continue  # would generate: that is a BFS operation, not a probe
-                    for optional in ((False, True) if key not in m.res and key not in m.fac else (False,)):
+                    # optional variants: where nothing matches, and where only an ASYNC factory matches a SYNC lookup (that is an
+                    # AsyncResourceError with or without `optional`)
+                    blocked_sync = key not in m.res and key in m.fac and m.fac[key]["async"] and not is_async
+                    for optional in ((False, True) if (key not in m.res and key not in m.fac) or blocked_sync else (False,)):
                         plist.append(("get", api, tname, name, optional))
             if "s_nowait" in self.check.probe_apis or "s_async" in self.check.probe_apis or "nowait" in self.check.probe_apis:
                 plist += [("list", "A"), ("list", "B")]
